@@ -65,7 +65,9 @@ CHECKS = {
          "on a valid query over an acyclic graph the only exception is Unidentifiable; every call of the rule-2 test, every exchange of an observation for an action, the recursive "
          "call and the final ID call satisfy their preconditions (KeyError / NodeNotFound from the separation test, ValueError from the exchange and NetworkXError from the surgery are "
          "unreachable). rule_2_of_do_calculus_applies: exception freedom proved; that its verdict is m-separation of every outcome from z given X | (Z - z) in G with edges into X and "
-         "out of z removed is stated as a contract over are_d_separated's contract (undecided: closure equalities) and left to the bounded stand-in. The value clause (estimand = "
+         "out of z removed is stated as a contract over are_d_separated's contract (undecided: closure equalities) and left to its bounded stand-in (the real function against that "
+         "definition, with networkx d-separation on the canonical DAG, for every condition of every sampled query). Termination: each recursive call of idc has a strictly smaller "
+         "conditioning set (`decreases@idc`, thorough tier). The value clause (estimand = "
          "P(Y,Z|do X)/P(Z|do X)) is decided by the bounded stand-in: exact SCM evaluation on every ADMG with 2-3 nodes x every conditional query, textbook graphs, sampled 4-6 node ADMGs.",
          TRUST + "; assumed contracts: are_d_separated (C04), identify (C02), normalize_marginalize (C13, bounded); trusted mathematics: Shpitser & Pearl 2006b Thm 6-7",
          TECH + " (totality) + bounded exact-SCM evaluation", "DESIGN.md §5 C03"),
